@@ -25,7 +25,7 @@ from ..objectmodel.builder import (
 from ..util import hasha
 
 
-__compiled_grammar_cache: dict[tuple[str | None, str, int], g.Grammar] = {}
+__compiled_grammar_cache: dict[tuple[Any, ...], g.Grammar] = {}
 
 
 def boot_grammar() -> g.Grammar:
@@ -62,13 +62,6 @@ def compile(
         )
     cache = __compiled_grammar_cache
 
-    key = (name, hasha(grammar), id(semantics))
-    if key in cache:
-        model = cache[key]
-    else:
-        gen = TatSuParserGenerator(name, **settings)
-        model = cache[key] = gen.parse(grammar, **settings)
-
     asmodel = not semantics and (
         asmodel
         or isinstance(builderconfig, BuilderConfig)
@@ -76,6 +69,26 @@ def compile(
         or typedefs is not None
         or constructors is not None
     )
+
+    # NOTE the cached model is configured below, so the key must hold
+    #   everything that configuration depends on
+    key = (
+        name,
+        hasha(grammar),
+        id(semantics),
+        asmodel,
+        id(builderconfig) if builderconfig is not None else None,
+        basetype,
+        synthok,
+        tuple(id(t) for t in typedefs or ()),
+        tuple(id(c) for c in constructors or ()),
+        repr(sorted(settings.items(), key=lambda kv: kv[0])),
+    )
+    if key in cache:
+        model = cache[key]
+    else:
+        gen = TatSuParserGenerator(name, **settings)
+        model = cache[key] = gen.parse(grammar, **settings)
     if semantics is not None:
         model.semantics = semantics
     elif asmodel:
